@@ -16,8 +16,8 @@ EXTENDS Tp21Core, Mon21, Json, IOUtils
 
 Batch == JsonDeserialize(IOEnv.TRACE_FILE)
 
-VARIABLES tid, l, ns, pc, pend, dm, bm, silent, tmr, bad
-vars == <<tid, l, ns, pc, pend, dm, bm, silent, tmr, bad>>
+VARIABLES tid, l, ns, pc, pend, dm, bm, silent, tmr, d1, bad
+vars == <<tid, l, ns, pc, pend, dm, bm, silent, tmr, d1, bad>>
 
 Tr == Batch[tid]
 Ev == Tr.ev
@@ -34,6 +34,7 @@ Init ==
     /\ bm = BmInit
     /\ silent = {}
     /\ tmr = [n \in DOMAIN Batch[tid].cfg |-> None]     \* deadline of the one-shot probe timer of each node
+    /\ d1 = [src |-> <<>>, want |-> None, got |-> 0]     \* DM1 monitor (C16)
     /\ bad = {}
 
 Has2(e, f) == f \in DOMAIN e
@@ -58,7 +59,12 @@ MatchCb(h, e) == h.k = "cb" /\ h.tag = e.tag /\ h.pgn = e.pgn /\ h.sa = e.sa /\ 
 
 Apply(e) ==
     LET n == e.node IN
-    CASE e.ev = "api" /\ e.op = "send_pgn" ->
+    CASE e.ev = "api" /\ e.op = "send_pgn" /\ pc[n].ph \in {"rcv", "snd", "burst", "bexit"} ->
+           \* submitted from a timer callback: the pass over the sessions of this loop iteration is finished first
+           LET r == FinishPass(n, e.t) IN
+           IF r.dead \/ r.out # <<>> \/ r.pc.ph # "end" THEN Fail("pass not finished as predicted before the timer callbacks")
+           ELSE [S([ns EXCEPT ![n] = r.ns], [pc EXCEPT ![n] = r.pc], pend, dm, bm, {}) EXCEPT !.bad = {"RETRY"}]
+      [] e.ev = "api" /\ e.op = "send_pgn" ->
            LET a == [dp |-> e.dp, pf |-> e.pf, ps |-> e.ps, prio |-> e.prio, sa |-> e.sa, data |-> e.data]
                r == SendPgn(ns[n], Cfg(n), a, e.t)
            IN IF Has2(e, "exc") THEN Fail("api.send_pgn raised")
@@ -67,11 +73,15 @@ Apply(e) ==
                      IF r.ret THEN DmAccept(dm, n, a) ELSE DmRefuse(dm), bm, {})
       [] e.ev = "api" /\ e.op = "add_timer" ->     \* one-shot probe timer: wakes the job thread
            S([ns EXCEPT ![n].tok = @ + 1], pc, pend, dm, bm, {})
+      [] e.ev = "api" /\ e.op = "remove_timer" ->  \* e.g. Dm1.stop_send: wakes the job thread
+           S([ns EXCEPT ![n].tok = @ + 1], pc, pend, dm, bm, {})
       [] e.ev = "timer" ->                          \* its callback: never early, at most the wake latency late
-           IF tmr[n] = None THEN Fail("timer callback without a registration")
+           IF tmr[n] = None THEN Fail("timer callback without a registration (or after it was removed)")
            ELSE IF e.t < tmr[n] THEN Fail("timer fired early")
            ELSE IF e.t > tmr[n] + WakeLat + Tr.expect.slack THEN Fail("timer fired late")
            ELSE S(ns, pc, pend, dm, bm, {})
+      [] e.ev = "dm1src" -> S(ns, pc, pend, dm, bm, {})      \* checked by the DM1 monitor below
+      [] e.ev = "dm1rx" -> S(ns, pc, pend, dm, bm, {})
       [] e.ev = "tx" ->
            IF pend[n] # <<>>
            THEN IF MatchTx(Head(pend[n]), e)
@@ -149,6 +159,28 @@ Apply(e) ==
       [] e.ev \in {"lost", "silence", "token", "note", "end"} -> S(ns, pc, pend, dm, bm, {})
       [] OTHER -> Fail("unknown event")
 
+(* C16 monitor: what the DM1 sender's callback supplied (dm1src) must be encoded per SAE J1939-73 (Codec) in the *)
+(* payload handed to send_pgn, and is what every DM1 subscriber receives (dm1rx), in order.                      *)
+LampName(k) == CASE k = 0 -> "off" [] k = 1 -> "on" [] k = 2 -> "slow" [] k = 3 -> "fast" [] OTHER -> "na"
+RECURSIVE DtcCat(_)
+DtcCat(s) == IF s = <<>> THEN <<>> ELSE DtcBytes(Head(s).spn, Head(s).fmi, Head(s).oc) \o DtcCat(Tail(s))
+Dm1Bytes(x) == LampBytes(LampName(x.lamps.pl), LampName(x.lamps.awl), LampName(x.lamps.rsl), LampName(x.lamps.mil)) \o DtcCat(x.dtcs)
+Dm1Next(d, e) ==
+    IF e.ev = "dm1src" THEN [d EXCEPT !.src = Append(@, [lamps |-> e.lamps, dtcs |-> e.dtcs]), !.want = Len(d.src) + 1]
+    ELSE IF e.ev = "api" /\ e.op = "send_pgn" /\ d.want # None /\ e.pf = 254 /\ e.ps = 202 THEN [d EXCEPT !.want = None]
+    ELSE IF e.ev = "dm1rx" THEN [d EXCEPT !.got = @ + 1]
+    ELSE d
+Dm1Bad(d, e) ==
+    IF e.ev = "api" /\ e.op = "send_pgn" /\ e.pf = 254 /\ e.ps = 202 /\ d.want # None
+    THEN (IF e.data # Dm1Bytes(d.src[d.want]) THEN {"DM1 payload is not the SAE J1939-73 encoding of the lamp states and trouble codes the callback supplied"} ELSE {})
+    ELSE IF e.ev = "dm1rx"
+    THEN (IF d.got + 1 > Len(d.src) THEN {"DM1 delivered that nobody sent"}
+          ELSE IF e.lamps # d.src[d.got + 1].lamps \/ e.dtcs # d.src[d.got + 1].dtcs
+          THEN {"DM1 subscriber received other lamp states / trouble codes than the sender's callback supplied"} ELSE {})
+    ELSE IF e.ev = "end" /\ "dm1all" \in DOMAIN Tr.expect /\ Tr.expect.dm1all /\ d.got # Len(d.src)
+    THEN {"a DM1 that was sent never reached the subscriber"}
+    ELSE {}
+
 \* C06/C07: at the time of every event, no live stack still holds a session whose last activity is
 \* older than the standard's longest time-out (plus the wake-up latency of the job thread)
 SessionsOf(x) == {x.snd[i] : i \in 1..Len(x.snd)} \cup {x.rcv[i] : i \in 1..Len(x.rcv)}
@@ -165,19 +197,27 @@ Final ==
 Step ==
     /\ bad = {} /\ ~Done
     /\ LET r0 == Apply(Ev[l])
-           r == IF r0.bad = {} /\ Overdue(Ev[l].t)
-                THEN [r0 EXCEPT !.bad = {"session not given up within the standard's time-out"}] ELSE r0 IN
+           retry == r0.bad = {"RETRY"}          \* the state was prepared; the same event is applied again
+           r == IF retry THEN [r0 EXCEPT !.bad = {}]
+                ELSE IF r0.bad = {} /\ Overdue(Ev[l].t)
+                THEN [r0 EXCEPT !.bad = {"session not given up within the standard's time-out"}]
+                ELSE IF r0.bad = {} /\ Dm1Bad(d1, Ev[l]) # {} THEN [r0 EXCEPT !.bad = Dm1Bad(d1, Ev[l])] ELSE r0 IN
        /\ ns' = r.ns /\ pc' = r.pc /\ pend' = r.pend /\ dm' = r.dm /\ bm' = r.bm
-       /\ bad' = IF r.bad = {} /\ l = Len(Ev) THEN
+       /\ bad' = IF retry THEN {}
+                 ELSE IF r.bad = {} /\ l = Len(Ev) THEN
                     (IF \E n \in Nodes \ silent : r.pend[n] # <<>> THEN {"predicted output never happened"}
                      ELSE DmFinal(r.dm, Tr) \cup BmFinal(r.bm, Tr) \cup
                           (IF Tr.expect.idle /\ \E n \in Nodes \ silent : r.ns[n].snd # <<>> \/ r.ns[n].rcv # <<>>
                            THEN {"sessions left open at the end"} ELSE {}))
                  ELSE r.bad
-       /\ l' = IF r.bad = {} THEN l + 1 ELSE l
+       /\ l' = IF retry THEN l ELSE IF r.bad = {} THEN l + 1 ELSE l
     /\ silent' = IF Ev[l].ev = "silence" THEN silent \cup {Ev[l].node} ELSE silent
     /\ tmr' = IF Ev[l].ev = "api" /\ Ev[l].op = "add_timer" THEN [tmr EXCEPT ![Ev[l].node] = Ev[l].t + Ev[l].delta]
-              ELSE IF Ev[l].ev = "timer" THEN [tmr EXCEPT ![Ev[l].node] = None] ELSE tmr
+              ELSE IF Ev[l].ev = "api" /\ Ev[l].op = "remove_timer" THEN [tmr EXCEPT ![Ev[l].node] = None]
+              ELSE IF Ev[l].ev = "timer"
+              THEN [tmr EXCEPT ![Ev[l].node] = IF "period" \in DOMAIN Ev[l] /\ Ev[l].period > 0 THEN @ + Ev[l].period ELSE None]   \* periodic: stays on its grid
+              ELSE tmr
+    /\ d1' = Dm1Next(d1, Ev[l])
     /\ UNCHANGED tid
 
 Spec == Init /\ [][Step]_vars
